@@ -484,8 +484,11 @@ def examine(ctx, pool_seed, hist_seed, length, must=()):
         for k in d0:
             if d1.get(k) != d0[k] and (k, 'd') not in seen_mut:
                 seen_mut.add((k, 'd'))
-                ctx.violation('C20:library-state-mutated', f'call {op} changed {k} (default argument or module-level container)',
-                              dict(rep, object=k, history=history[:step + 1]))
+                # hidden state is the negation of the Frame premise of C20_history: the theorem no longer applies (an obligation).  Whether an
+                # answer actually changes is what the comparison with the isolated run decides; a correct cache changes none.
+                ctx.violation('C20:library-state-mutated', f'call {op} changed {k} (default argument or module-level container): the library keeps state '
+                              f'between calls, the Frame premise of C20_history is not established for this history',
+                              dict(rep, object=k, history=history[:step + 1]), kind='obligation')
     kinds = {op[0] for op in distinct}
     if len(distinct) >= 10 and 'transformer' in kinds and kinds & {'load_network', 'serialize', 'roundtrip', 'to_complex', 'deserialize'} \
             and kinds & {'solve', 'dc', 'complex', 'ssm', 'transient', 'timedomain', 'freqdomain', 'nssm'}:
